@@ -142,6 +142,8 @@ func NewRT(srcs *Sources, programPath string, opts ...runtime.Option) (*RT, erro
 	return rt, nil
 }
 
+var slowCounter bool
+
 var expMaps = []string{"prog_loads_total", "prog_load_errors_total", "prog_unloads_total", "prog_runtime_errors_total"}
 
 func readMap(name string) map[string]int64 {
@@ -309,8 +311,16 @@ func (rt *RT) Snapshot(withCounters bool) Snap {
 func (rt *RT) CountersNow() *Counters {
 	// the fan-out loop counts a line just after taking it from the channel:
 	// give it a moment to count the last barrier line
-	for i := 0; i < 2000 && readInt("lines_total")-rt.baseLine < rt.Sent; i++ {
+	limit := 2000
+	if slowCounter {
+		limit = 20 // it never caught up before: do not wait two seconds at every step
+	}
+	i := 0
+	for ; i < limit && readInt("lines_total")-rt.baseLine < rt.Sent; i++ {
 		time.Sleep(time.Millisecond)
+	}
+	if i == limit {
+		slowCounter = true
 	}
 	// Lines: lines_total minus the barrier lines the driver itself pushed (the
 	// exact total is checked against Sent by the C25 oracle)
